@@ -364,9 +364,50 @@ CONSTANTS
   Alphabet = {%(alpha)s}
   Boms = {FALSE, TRUE}
   BomMaxLen = %(bommax)d
+  Family = "bytes"
+  TokBounds = {}
 INVARIANTS TableSane Export
 CHECK_DEADLOCK FALSE
 """
+
+TOKENS_CFG = """SPECIFICATION Spec
+CONSTANTS
+  MaxLen = 0
+  ExportMin = 0
+  Alphabet = {}
+  Boms = {FALSE}
+  BomMaxLen = 0
+  Family = "tokens"
+  TokBounds <- TokBoundsDef
+INVARIANTS Export
+CHECK_DEADLOCK FALSE
+"""
+
+OPT_CONTEXTS = ["enumval", "extrange", "oneoffield"]
+SYNTAXES = ["proto2", "proto3", "ed2023"]
+
+
+def _token_bounds(thorough):
+    """<<context, syntax, max tokens>> triples: compact options on a field exhaustive to 3 (4) tokens in every syntax; the
+    larger families are bounded lower in the quick tier, with one seed-chosen syntax going one token deeper"""
+    pick = SYNTAXES[vf.seed() % 3]
+    b = []
+    for sy in SYNTAXES:
+        b.append(("fieldopt", sy, 4 if thorough else 3))
+        for c in OPT_CONTEXTS:
+            b.append((c, sy, 3 if thorough else 2))
+        b.append(("msgbody", sy, (4 if sy == pick else 3) if thorough else (3 if sy == pick else 2)))
+    b.append(("file", "none", 4 if thorough else 3))
+    return b
+
+
+def _token_cases(wd, thorough):
+    bounds = _token_bounds(thorough)
+    mod = ("MCTokGen", "---- MODULE MCTokGen ----\nEXTENDS MCParseInputs\nTokBoundsDef == {%s}\n====\n" %
+           ", ".join('<<"%s", "%s", %d>>' % t for t in bounds))
+    r, n = _tlc_cases("MCTokGen", TOKENS_CFG, wd, "tok", wd + "/cases_tok.jsonl", workers=4, extra_module=mod)
+    return (r, n), bounds
+
 
 TRACE_CFG = """SPECIFICATION TraceSpec
 CONSTANTS
@@ -569,7 +610,8 @@ def run_c12(pid, tier, replay):
         return r
 
     alpha = _q(ALPHABET)
-    names = ["exh", "sim", "mut"] + (["chain"] if thorough else [])
+    names = ["exh", "sim", "mut", "tok"] + (["chain"] if thorough else [])
+    tokbounds = []
     thunks = [
         lambda: _tlc_cases("MCParseInputs", INPUTS_CFG % dict(maxlen=maxlen, bommax=maxlen - 1, emin=0, alpha=alpha), wd, "exh",
                            wd + "/cases_exh.jsonl", workers=8 if thorough else 6, timeout=2400),
@@ -577,13 +619,15 @@ def run_c12(pid, tier, replay):
                            wd + "/cases_sim.jsonl", simulate=simn, depth=simd + 1,
                            dedupe_key=lambda o: str(o["bom"]) + "".join(o["text"])),
         lambda: _mutants(files, wd, "mut", wd + "/cases_mut.jsonl", stride),
+        lambda: _token_cases(wd, thorough),
     ]
     if thorough:   # the quick tier keeps the number of JVM starts down
         thunks.append(lambda: _mutants(files, wd, "chain", wd + "/cases_chain.jsonl", chain_stride, chain=2))
         thunks.append(mc_contract)
     res = _par(thunks)
     contract = res[-1] if thorough else None
-    gen = res[:len(names)]
+    gen = list(res[:len(names)])
+    gen[3], tokbounds = gen[3]
     _log("TLC done: " + ", ".join("%s=%d/%.0fs" % (n, c, r.wall) for n, (r, c) in zip(names, gen)))
     fam = collections.OrderedDict()
     for name, (r, n) in zip(names, gen):
@@ -593,7 +637,7 @@ def run_c12(pid, tier, replay):
 
     # record: text families together, mutant families together
     with open(wd + "/cases_text.jsonl", "w") as out:
-        for n in ("exh", "sim"):
+        for n in ("exh", "sim", "tok"):
             shutil.copyfileobj(open("%s/cases_%s.jsonl" % (wd, n)), out)
     with open(wd + "/cases_mutall.jsonl", "w") as out:
         for n in [x for x in names if x in ("mut", "chain")]:
@@ -650,7 +694,7 @@ def run_c12(pid, tier, replay):
         "exhaustive": True,
         "families": fam,
         "bounds": {"exhaustive_maxlen": maxlen, "exhaustive_maxlen_after_bom": maxlen - 1, "alphabet": ALPHABET, "simulate": [simn, simd],
-                   "mutation_stride": stride, "mutation_chain2_stride": chain_stride if thorough else None, "base_files": [f["name"] for f in files]},
+                   "token_families": ["%s/%s<=%d" % t for t in tokbounds], "mutation_stride": stride, "mutation_chain2_stride": chain_stride if thorough else None, "base_files": [f["name"] for f in files]},
         "trace_validation": {"events": events, "tlc_states": vstates, "chunks": nchunks,
                              "contract_model_states": contract.distinct if contract else "thorough tier only"},
         "call_features": dict(feats),
